@@ -15,6 +15,8 @@ IMG_CONFIGS = [
     ("ext4_metabg48", ["-t", "ext4", "-b", "1024", "-g", "256", "-O", "meta_bg,^resize_inode", "-I", "256", "-N", "768"], "12M"),
     # 128-byte group descriptors: the checksum covers more than struct ext4_group_desc
     ("ext4_desc128", ["-t", "ext4", "-b", "1024", "-g", "2048", "-O", "64bit,metadata_csum", "-E", "desc_size=128", "-I", "256", "-N", "512"], "8M"),
+    # more than 500 attribute blocks, each shared by two inodes, met by the inode scan in descending block order
+    ("ext4_sharedea", ["-t", "ext4", "-b", "1024", "-I", "128", "-N", "2560", "-O", "^metadata_csum,^64bit,uninit_bg"], "16M"),
 ]
 
 
@@ -61,12 +63,47 @@ def _build_image(src, work, name, opts, size, seed, nfiles, img):
              "ea_set d1/plain user.big %s" % ("v" * 200), "ea_set d1 user.k v", "mknod d1/fifo p", "link d1/plain d1/hardlink",
              "mkdir d1/sub/x", "mkdir d1/sub/y"]
     e2v.sh([T("debugfs/debugfs"), "-w", "-f", "-", img], input=("\n".join(cmds) + "\n").encode(), env=env, timeout=300)
+    if name == "ext4_sharedea":
+        # inode order: 100 sharers whose owners come last ("open" entries of e2fsck's reference list), 400 adjacent (sharer, owner) pairs,
+        # 30 more adjacent pairs; block order (order of the ea_set commands): owners of the open ones, pairs 0..199, the 30 late pairs, pairs 200..399
+        # - when the 501st block is met the list is full of finished entries and the new key falls into their middle
+        mk = ["mkdir sx"] + ["write /dev/null sx/ob%03d" % i for i in range(100)]
+        for j in range(400):
+            mk += ["write /dev/null sx/pb%03d" % j, "write /dev/null sx/pa%03d" % j]
+        for j in range(30):
+            mk += ["write /dev/null sx/mb%03d" % j, "write /dev/null sx/ma%03d" % j]
+        mk += ["write /dev/null sx/oa%03d" % i for i in range(100)]
+        order = ["oa%03d" % i for i in range(100)] + ["pa%03d" % j for j in range(200)] + ["ma%03d" % j for j in range(30)] + ["pa%03d" % j for j in range(200, 400)]
+        mk += ["ea_set sx/%s user.shared %s" % (nm, (nm + "_") * 12) for nm in order]
+        e2v.sh([T("debugfs/debugfs"), "-w", "-f", "-", img], input=("\n".join(mk) + "\n").encode(), env=env, timeout=600)
     rc, out = e2v.sh([T("e2fsck/e2fsck"), "-fyD", img], env=env, timeout=300)
+    if name == "ext4_sharedea":
+        share_xattr_blocks(img)
     rc, out = e2v.sh([T("e2fsck/e2fsck"), "-fn", img], env=env, timeout=300)
     if rc != 0:
         raise RuntimeError("base image %s not clean: %s" % (name, out[-400:]))
     open(keyf, "w").write(k)
     return img
+
+
+def share_xattr_blocks(img):
+    """every sharer sx/?b<n> gets the attribute block of its owner sx/?a<n>: reference count 2 on every block"""
+    fs = Fs(img)
+    d = bytearray(fs.d)
+    root = {e[0]: e[1] for e in fs.dir_entries(2)}
+    sx = {e[0]: e[1] for e in fs.dir_entries(root[b"sx"])}
+    for nm, b in sx.items():
+        if len(nm) != 5 or nm[1:2] != b"b":
+            continue
+        a = sx.get(nm[:1] + b"a" + nm[2:])
+        blk = fs.inode(a)["file_acl"] if a else 0
+        if not blk:
+            continue
+        struct.pack_into("<I", d, blk * fs.bs + 4, 2)                       # h_refcount
+        loc = fs.inode_loc(b)
+        struct.pack_into("<I", d, loc + 104, blk)                           # i_file_acl
+        struct.pack_into("<I", d, loc + 28, struct.unpack_from("<I", d, loc + 28)[0] + fs.bs // 512)   # i_blocks
+    open(img, "wb").write(d)
 
 
 # ---------------------------------------------------------------- checksum repair (so that damage is structural)
@@ -453,6 +490,98 @@ def op_append_block(fs, d, r, keep_csum, which=None):
     return "not applicable"
 
 
+SB_VARIANTS = ["bpg_big", "bpg_big_nobitmap", "ipg_big", "first_data_block", "blocks_count_hi", "inode_size_odd", "desc_size_small", "log_flex_big",
+               "rsv_gdt_big", "first_ino_big", "log_cluster_big", "first_meta_bg_big"]
+
+
+def op_superblock_geometry(fs, d, r, keep_csum, which=None):
+    """superblock geometry fields at values that pass the open-time checks only just, or not at all (checksum valid)"""
+    which = which or r.choice(SB_VARIANTS)
+    sb = fs.off + 1024
+    bs = fs.bs
+    u32 = lambda o: struct.unpack_from("<I", d, sb + o)[0]
+    if which in ("bpg_big", "bpg_big_nobitmap"):
+        bpg = r.choice([8 * bs + 8, 8 * bs + 4096, 65528, 32768 + 8]) if bs < 8192 else 65528
+        bpg = min(bpg, 65528)
+        groups = (fs.blocks_count - fs.first_data_block + bpg - 1) // bpg
+        struct.pack_into("<I", d, sb + 32, bpg)
+        struct.pack_into("<I", d, sb + 36, bpg)
+        struct.pack_into("<I", d, sb + 0, groups * u32(40))
+        if which == "bpg_big_nobitmap":
+            struct.pack_into("<I", d, gd_loc(fs, 0), 0)
+            fix_gd_csum(fs, d, 0)
+    elif which == "ipg_big":
+        ipg = r.choice([8 * bs + 8, 65528, 8 * bs + 1024])
+        struct.pack_into("<I", d, sb + 40, ipg)
+        struct.pack_into("<I", d, sb + 0, fs.groups_count * ipg)
+    elif which == "first_data_block":
+        struct.pack_into("<I", d, sb + 20, r.choice([2, 7, fs.blocks_count - 1, fs.blocks_count, 0xFFFFFFFF]))
+    elif which == "blocks_count_hi":
+        struct.pack_into("<I", d, sb + 0x150, r.choice([1, 0xFFFF, 0xFFFFFFFF]))
+    elif which == "inode_size_odd":
+        struct.pack_into("<H", d, sb + 88, r.choice([0, 1, 127, 129, 192, bs * 2, 0xFFFF]))
+    elif which == "desc_size_small":
+        struct.pack_into("<H", d, sb + 0xFE, r.choice([0, 1, 16, 31, 33, 48, 96, 1023, 0xFFFF]))
+    elif which == "log_flex_big":
+        d[sb + 0x174] = r.choice([31, 32, 33, 63, 255])
+    elif which == "rsv_gdt_big":
+        struct.pack_into("<H", d, sb + 0xCE, r.choice([bs // 4, bs // 4 + 1, 0x7FFF, 0xFFFF]))
+    elif which == "first_ino_big":
+        struct.pack_into("<I", d, sb + 84, r.choice([0, 1, u32(0), u32(0) + 1, 0xFFFFFFFF]))
+    elif which == "log_cluster_big":
+        struct.pack_into("<I", d, sb + 28, r.choice([u32(24) + 1, 29, 30, 31, 0xFFFFFFFF]))
+    elif which == "first_meta_bg_big":
+        struct.pack_into("<I", d, sb + 0x104, r.choice([1, fs.desc_blocks, fs.desc_blocks + 1, 0xFFFFFFFF]))
+    fix_sb_csum(fs, d)
+    return "superblock: %s" % which
+
+
+DX_VARIANTS = ["root_count_big", "root_count_max", "root_limit_big", "root_levels", "root_info_length", "entry_block_big", "root_count_zero"]
+
+
+def op_dx_node(fs, d, r, keep_csum, which=None):
+    """the count/limit header of an htree root, its level count, or an entry's block number"""
+    which = which or r.choice(DX_VARIANTS)
+    cands = [i for i in directories(fs) if fs.inode(i)["flags"] & 0x1000]
+    if not cands:
+        return "not applicable"
+    ino = r.choice(cands)
+    inode = fs.inode(ino)
+    m, _ = fs.file_map(ino, inode)
+    if 0 not in m:
+        return "not applicable"
+    a = fs.off + m[0][0] * fs.bs
+    info_len = d[a + 0x18 + 5]
+    cl = a + 0x18 + info_len
+    limit, count = struct.unpack_from("<HH", d, cl)
+    if which == "root_count_big":
+        struct.pack_into("<H", d, cl + 2, limit + r.choice([1, 2, 50]))
+    elif which == "root_count_max":
+        struct.pack_into("<H", d, cl + 2, r.choice([0xFFFF, 0x8000, 4096]))
+    elif which == "root_count_zero":
+        struct.pack_into("<H", d, cl + 2, 0)
+    elif which == "root_limit_big":
+        struct.pack_into("<H", d, cl, r.choice([0xFFFF, limit + 1, limit * 2]))
+        struct.pack_into("<H", d, cl + 2, r.choice([count, limit + 1, 0xFFF0]))
+    elif which == "root_levels":
+        d[a + 0x18 + 6] = r.choice([1, 2, 3, 4, 255])
+    elif which == "root_info_length":
+        d[a + 0x18 + 5] = r.choice([0, 4, 9, 16, 200, 255])
+    elif which == "entry_block_big":
+        struct.pack_into("<I", d, cl + 8 * r.randrange(max(1, count)) + 4, r.choice([0xFFFFFF, 0x00FFFFFE, len(m) + 3, 0xFFFFFFFF]))
+    if keep_csum and fs.has_csum:
+        # dx tail: after limit entries
+        limit2 = struct.unpack_from("<H", d, cl)[0] if which != "root_limit_big" else limit
+        toff = (0x18 + info_len) + 8 * limit
+        if toff + 8 <= fs.bs:
+            cnt = struct.unpack_from("<H", d, cl + 2)[0]
+            gen = inode["generation"]
+            c = crc32c(crc32c(crc32c(_seed(fs), struct.pack("<I", ino)), struct.pack("<I", gen)), bytes(d[a:a + 0x18 + info_len + 8 * min(cnt, limit)]))
+            c = crc32c(c, bytes(d[a + toff:a + toff + 4]) + b"\0\0\0\0")
+            struct.pack_into("<I", d, a + toff + 4, c)
+    return "directory inode %d: htree root %s" % (ino, which)
+
+
 XATTR_VARIANTS = ["size_wrap", "size_wrap_lo", "size_max", "size_block", "offs_end", "offs_header", "name_len", "inum", "refcount0", "refcount_hi", "no_terminator"]
 
 
@@ -532,7 +661,7 @@ PAIRS = [
 DIRECTED = [(op_append_block, "end"), (op_append_block, "end+1"), (op_block_pointer, "end"), (op_block_pointer, "end+1"), (op_extent_edge, "end"), (op_extent_edge, "end+1"),
             (op_extra_isize, "hi"), (op_block_pointer, "first-1"), (op_block_pointer, "itable"), (op_extra_isize, "ok")]
 
-OPERATORS = [op_xattr_block, op_xattr_block, op_append_block, op_block_pointer, op_extent_edge, op_extra_isize, op_bitmap_block, op_bitmap_inode, op_gd_counts, op_gd_location, op_inode_field, op_inode_field,
+OPERATORS = [op_dx_node, op_xattr_block, op_xattr_block, op_append_block, op_block_pointer, op_extent_edge, op_extra_isize, op_bitmap_block, op_bitmap_inode, op_gd_counts, op_gd_location, op_inode_field, op_inode_field,
              op_extent, op_extent, op_dirent, op_dirent, op_csum_only, op_noise]
 
 
